@@ -22,11 +22,16 @@ DBASE = G.DATA + 0x400
 _SR = ['srs_rfe', 'srs_rfe_iadb', 'srs_rfe_ibda', 'srs_rfe_daib']         # SRSDB+RFEIA, SRSIA+RFEDB, SRSIB+RFEDA, SRSDA+RFEIB
 # 'adds0' .. 'bics0': the other (deprecated but architected) data-processing forms of an exception return with an unchanged LR
 _DP0 = ['adds0', 'orrs0', 'eors0', 'bics0']
-RETURNS_ARM = {'irq': ['subs', 'ldm^'] + _SR, 'fiq': ['subs', 'ldm^'] + _SR, 'svc': ['movs', 'ldm^'] + _SR + _DP0,
-               'und': ['movs', 'ldm^'] + _SR + _DP0, 'dabt': ['subs8', 'ldm^8'] + [x + '8' for x in _SR]}
+# 'spsr_subs': the handler saves the SPSR with MRS, the SPSR is then overwritten (what a nested exception to the same mode does to it) and
+# restored with MSR SPSR_fsxc before the return - every bit of the saved PSR, the IT/J/T execution state included, must survive the round trip.
+# 'spsr_nest' (IRQ/FIQ): the re-entrant form of the same handler - LR and SPSR saved on the stack, the interrupt re-enabled for a window in
+# which a second interrupt of the same kind (scheduled by the generators a few ticks after the first) really nests into the same mode
+RETURNS_ARM = {'irq': ['subs', 'ldm^', 'spsr_subs', 'spsr_nest'] + _SR, 'fiq': ['subs', 'ldm^', 'spsr_subs', 'spsr_nest'] + _SR, 'svc': ['movs', 'ldm^', 'spsr_subs'] + _SR + _DP0,
+               'und': ['movs', 'ldm^', 'spsr_subs'] + _SR + _DP0, 'dabt': ['subs8', 'ldm^8', 'spsr_subs8'] + [x + '8' for x in _SR]}
 # 'it_subs': the return instruction is the (last and only) slot of an IT block of the handler itself
-RETURNS_THUMB = {'irq': ['subs', 'srs_rfe', 'srs_rfe_iadb', 'it_subs'], 'fiq': ['subs', 'srs_rfe', 'srs_rfe_iadb', 'it_subs'], 'svc': ['movs', 'srs_rfe', 'srs_rfe_iadb', 'it_subs'],
-                 'und': ['movs', 'srs_rfe', 'srs_rfe_iadb', 'it_subs'], 'dabt': ['subs8', 'srs_rfe8', 'srs_rfe_iadb8', 'it_subs8']}
+RETURNS_THUMB = {'irq': ['subs', 'srs_rfe', 'srs_rfe_iadb', 'it_subs', 'spsr_subs', 'spsr_nest'], 'fiq': ['subs', 'srs_rfe', 'srs_rfe_iadb', 'it_subs', 'spsr_subs', 'spsr_nest'],
+                 'svc': ['movs', 'srs_rfe', 'srs_rfe_iadb', 'it_subs', 'spsr_subs'], 'und': ['movs', 'srs_rfe', 'srs_rfe_iadb', 'it_subs', 'spsr_subs'],
+                 'dabt': ['subs8', 'srs_rfe8', 'srs_rfe_iadb8', 'it_subs8', 'spsr_subs8']}
 
 
 def _intc_const_arm(rd):
@@ -53,6 +58,13 @@ def handler_arm(kind, ret, clobber=True, mode=None):
         w = [A.push(0x100F)] + body + [A.pop(0x100F)]
         w.append(A.movs_pc_lr() if (base == 'movs' and adj == 0) else A.subs_pc_lr(adj))
         return w
+    if base == 'spsr_nest':
+        aif = 2 if kind == 'irq' else 1
+        return ([A.dp_imm('sub', 14, 14, adj), A.push(0x500F), A.mrs(0, 1), A.push(0x0001)] + body + [A.cps(2, aif), A.NOP, A.NOP, A.cps(3, aif), A.pop(0x0001),
+                                                                                                A.msr_reg(0, 0xF, 1), A.ldstm(1, 13, 0x900F, p=0, u=1, w=1, s=1)])
+    if base == 'spsr_subs':
+        return ([A.push(0x100F), A.mrs(0, 1), A.push(0x0001)] + body + [A.mov_imm(1, 0xD3), A.msr_reg(1, 0xF, 1), A.pop(0x0001), A.msr_reg(0, 0xF, 1),
+                                                                     A.pop(0x100F), A.subs_pc_lr(adj)])
     if base in _DP0:
         assert adj == 0
         return [A.push(0x100F)] + body + [A.pop(0x100F), A.dp_imm({'adds0': 'add', 'orrs0': 'orr', 'eors0': 'eor', 'bics0': 'bic'}[base], 15, 14, 0, s=1)]
@@ -91,6 +103,13 @@ def handler_thumb(kind, ret, clobber=True, mode=None):
         return [T.push(0x0F)] + body + [T.pop(0x0F), T.ERET]           # Hyp mode: ELR_hyp already is the address to resume at
     if base in ('subs', 'movs'):
         return [T.push(0x0F)] + body + [T.pop(0x0F), T.subs_pc_lr(adj)]
+    if base == 'spsr_nest':
+        aif = 2 if kind == 'irq' else 1
+        return ([0xF1AE0E00 | adj, T.push(0x0F, 1), T.mrs(0, 1), T.push(0x01)] + body + [T.cps(0, aif), T.NOP, T.NOP, T.cps(1, aif), T.pop(0x01), T.msr(0, 0xF, 1),
+                                                                                        T.pop(0x0F), 0xF85DEB04, T.subs_pc_lr(0)])           # ... LDR lr,[sp],#4 ; SUBS pc,lr,#0
+    if base == 'spsr_subs':
+        return ([T.push(0x0F), T.mrs(0, 1), T.push(0x01)] + body + [T.mov_imm(1, 0xD3), T.msr(1, 0xF, 1), T.pop(0x01), T.msr(0, 0xF, 1),
+                                                                   T.pop(0x0F), T.subs_pc_lr(adj)])
     if base == 'it_subs':
         return [T.push(0x0F)] + body + [T.pop(0x0F), T.dp(10, 0, 0), T.it(0, 8), T.subs_pc_lr(adj)]      # CMP r0,r0 ; IT EQ ; SUBSEQ pc,lr,#adj
     if base == 'srs_rfe':
